@@ -2577,3 +2577,416 @@ func c07RunsOnce(v ssa.Value) bool {
 	}
 	return true
 }
+
+// ---------------------------------------------------------------------------
+// Constant tables: package-level variables that are never written after the package initialiser filled them with
+// constants (a transition table, a table of step sizes). Reading one is reading a constant: the rules may evaluate
+// the read (C07: the 4-state table of the backward walk looked up instead of spelled as an if-chain), and the read is
+// no input of the computation (C07.5) and no source of nondeterminism (C17.1). Everything is decided from the code:
+// the variable's type holds no pointer of any kind, the only stores that reach it are stores of constants, through
+// constant access paths, once per path, in the straight-line part of its package's initialiser, and no other
+// instruction of the whole program can write it: every use of its address is an access path ending in a load.
+
+type ConstTable struct {
+	G    *ssa.Global
+	Vals map[string]*ssa.Const // access path ("[1][2].#0") -> constant stored by the initialiser; absent: zero value
+	Why  string                // non-empty: NOT a constant table, and why
+}
+
+// c07PlainType: the type holds only numbers, booleans and strings in arrays and structs (nothing that can alias).
+func c07PlainType(t types.Type, depth int) bool {
+	if depth > 6 {
+		return false
+	}
+	switch u := t.Underlying().(type) {
+	case *types.Basic:
+		return u.Info()&(types.IsBoolean|types.IsNumeric|types.IsString) != 0 && u.Kind() != types.UnsafePointer && u.Kind() != types.Uintptr
+	case *types.Array:
+		return c07PlainType(u.Elem(), depth+1)
+	case *types.Struct:
+		for i := 0; i < u.NumFields(); i++ {
+			if !c07PlainType(u.Field(i).Type(), depth+1) {
+				return false
+			}
+		}
+		return true
+	}
+	return false
+}
+
+func (p *Prog) ConstTableOf(g *ssa.Global) *ConstTable {
+	if p.constTables == nil {
+		p.constTables = map[*ssa.Global]*ConstTable{}
+	}
+	if t, done := p.constTables[g]; done {
+		return t
+	}
+	t := &ConstTable{G: g, Vals: map[string]*ssa.Const{}}
+	p.constTables[g] = t
+	fail := func(why string) {
+		if t.Why == "" {
+			t.Why = why
+		}
+	}
+	pt, isPtr := g.Type().Underlying().(*types.Pointer)
+	if !isPtr || !c07PlainType(pt.Elem(), 0) {
+		fail("its type can hold pointers, slices, maps, functions or interfaces")
+		return t
+	}
+	if g.Pkg == nil {
+		fail("no package")
+		return t
+	}
+	initFn := g.Pkg.Func("init")
+	if p.allFuncs == nil {
+		p.CallGraph()
+	}
+	var fns []*ssa.Function
+	for fn := range p.allFuncs {
+		if fn.Blocks != nil {
+			fns = append(fns, fn)
+		}
+	}
+	if initFn != nil && !p.allFuncs[initFn] {
+		fns = append(fns, initFn)
+	}
+	stored := map[string]int{}
+	// use of an address `addr` (the variable's own address or an access path into it) by instruction `in`
+	var use func(fn *ssa.Function, addr ssa.Value, path string, constPath bool, in ssa.Instruction, depth int)
+	use = func(fn *ssa.Function, addr ssa.Value, path string, constPath bool, in ssa.Instruction, depth int) {
+		if depth > 8 {
+			fail("access path too deep")
+			return
+		}
+		follow := func(v ssa.Value, path string, constPath bool) {
+			refs := v.Referrers()
+			if refs == nil {
+				return
+			}
+			for _, ref := range *refs {
+				use(fn, v, path, constPath, ref, depth+1)
+			}
+		}
+		switch x := in.(type) {
+		case *ssa.DebugRef:
+		case *ssa.FieldAddr:
+			if x.X != addr {
+				fail("address used as a value in " + FuncName(fn))
+				return
+			}
+			follow(x, fmt.Sprintf("%s.#%d", path, x.Field), constPath)
+		case *ssa.IndexAddr:
+			if x.X != addr {
+				fail("address used as an index in " + FuncName(fn))
+				return
+			}
+			if k, isK := c07Int(x.Index); isK {
+				follow(x, fmt.Sprintf("%s[%d]", path, k), constPath)
+			} else {
+				follow(x, path+"[*]", false)
+			}
+		case *ssa.UnOp:
+			if x.Op != token.MUL || x.X != addr {
+				fail("address used in an operation in " + FuncName(fn))
+			}
+			// a load: the value read is a copy (the type holds nothing that aliases)
+		case *ssa.Store:
+			if x.Addr != addr {
+				fail("its address is stored somewhere in " + FuncName(fn))
+				return
+			}
+			c, isC := x.Val.(*ssa.Const)
+			_, basic := x.Val.Type().Underlying().(*types.Basic)
+			inLoop := false
+			for _, l := range Loops(fn) {
+				if l.Blocks[x.Block()] {
+					inLoop = true
+				}
+			}
+			switch {
+			case fn != initFn:
+				fail("written in " + FuncName(fn))
+			case !isC || !basic || c.Value == nil:
+				fail("initialised with a value that is not a constant")
+			case !constPath || inLoop:
+				fail("initialised through a computed index or in a loop")
+			default:
+				stored[path]++
+				if stored[path] > 1 {
+					fail("an element is initialised twice")
+				}
+				t.Vals[path] = c
+			}
+		default:
+			fail("its address escapes in " + FuncName(fn) + " (" + in.String() + ")")
+		}
+	}
+	for _, fn := range fns {
+		fn := fn
+		Instrs(fn, func(_ *ssa.BasicBlock, _ int, in ssa.Instruction) {
+			for _, op := range in.Operands(nil) {
+				if *op == ssa.Value(g) {
+					use(fn, g, "", true, in, 0)
+					break
+				}
+			}
+		})
+	}
+	return t
+}
+
+// Lookup: the constant at an access path given as a list of elements (field numbers and indices); ok=false when the
+// path leaves the variable's type (index out of range: the program would panic there) or does not end at a basic value.
+type ctElem struct {
+	Field int   // >= 0: struct field number
+	Index int64 // when Field < 0: array index
+}
+
+func (t *ConstTable) Lookup(path []ctElem) (constant.Value, bool) {
+	if t == nil || t.Why != "" {
+		return nil, false
+	}
+	ty := t.G.Type().Underlying().(*types.Pointer).Elem()
+	key := ""
+	for _, e := range path {
+		switch u := ty.Underlying().(type) {
+		case *types.Array:
+			if e.Field >= 0 || e.Index < 0 || e.Index >= u.Len() {
+				return nil, false
+			}
+			key += fmt.Sprintf("[%d]", e.Index)
+			ty = u.Elem()
+		case *types.Struct:
+			if e.Field < 0 || e.Field >= u.NumFields() {
+				return nil, false
+			}
+			key += fmt.Sprintf(".#%d", e.Field)
+			ty = u.Field(e.Field).Type()
+		default:
+			return nil, false
+		}
+	}
+	b, isBasic := ty.Underlying().(*types.Basic)
+	if !isBasic {
+		return nil, false
+	}
+	if c, has := t.Vals[key]; has {
+		return c.Value, true
+	}
+	switch {
+	case b.Info()&types.IsBoolean != 0:
+		return constant.MakeBool(false), true
+	case b.Info()&types.IsString != 0:
+		return constant.MakeString(""), true
+	case b.Info()&types.IsInteger != 0:
+		return constant.MakeInt64(0), true
+	case b.Info()&types.IsFloat != 0:
+		return constant.MakeFloat64(0), true
+	}
+	return nil, false
+}
+
+// c07LocalCopyOf: alloc is a local variable that holds, whenever it is read, the value stored by its single whole
+// store (`step := table[k][s]`): every other use of the cell is a field/element read. Returns that store.
+func c07LocalCopyOf(alloc *ssa.Alloc) *ssa.Store {
+	var st *ssa.Store
+	ok := true
+	var reads func(v ssa.Value, depth int)
+	reads = func(v ssa.Value, depth int) {
+		refs := v.Referrers()
+		if refs == nil || depth > 6 {
+			ok = false
+			return
+		}
+		for _, ref := range *refs {
+			switch x := ref.(type) {
+			case *ssa.DebugRef:
+			case *ssa.FieldAddr:
+				if x.X != v {
+					ok = false
+				}
+				reads(x, depth+1)
+			case *ssa.IndexAddr:
+				if x.X != v {
+					ok = false
+				}
+				reads(x, depth+1)
+			case *ssa.UnOp:
+				if x.Op != token.MUL {
+					ok = false
+				}
+			case *ssa.Store:
+				if v == ssa.Value(alloc) && x.Addr == v && st == nil {
+					st = x
+				} else {
+					ok = false
+				}
+			default:
+				ok = false
+			}
+		}
+	}
+	reads(alloc, 0)
+	if !ok {
+		return nil
+	}
+	return st
+}
+
+// c07InConstTable: the address lies in a constant table, or in a local copy of (a part of) one.
+func (p *Prog) c07InConstTable(addr ssa.Value, depth int) bool {
+	for i := 0; i < 10; i++ {
+		switch x := addr.(type) {
+		case *ssa.FieldAddr:
+			addr = x.X
+			continue
+		case *ssa.IndexAddr:
+			if _, isPtr := x.X.Type().Underlying().(*types.Pointer); !isPtr {
+				return false
+			}
+			addr = x.X
+			continue
+		case *ssa.Global:
+			return p.ConstTableOf(x).Why == ""
+		case *ssa.Alloc:
+			st := c07LocalCopyOf(x)
+			if st == nil || depth > 3 {
+				return false
+			}
+			ld, isLoad := st.Val.(*ssa.UnOp)
+			return isLoad && ld.Op == token.MUL && p.c07InConstTable(ld.X, depth+1)
+		}
+		return false
+	}
+	return false
+}
+
+// c07TableEval: the constant that v - a read of a constant table addressed by constants and by the state variable
+// of the walk (the loop-carried value `sw`, as it is at the start of the iteration) - yields on the path when the
+// state is s. The read may go through a local copy of a table row or element made earlier on the path.
+func c07TableEval(p *Prog, ip *IterPath, v ssa.Value, sw ssa.Value, s int64) (constant.Value, bool) {
+	ld, ok := ip.ResolveAt(v).(*ssa.UnOp)
+	if !ok || ld.Op != token.MUL {
+		return nil, false
+	}
+	var suffix []ctElem // innermost first
+	addr := ld.X
+	user := ssa.Instruction(ld)
+	for i := 0; i < 16; i++ {
+		switch x := addr.(type) {
+		case *ssa.FieldAddr:
+			suffix = append(suffix, ctElem{Field: x.Field})
+			addr = x.X
+		case *ssa.IndexAddr:
+			if _, isPtr := x.X.Type().Underlying().(*types.Pointer); !isPtr {
+				return nil, false
+			}
+			idx := ip.ResolveAt(x.Index)
+			if k, isK := c07Int(idx); isK {
+				suffix = append(suffix, ctElem{Field: -1, Index: k})
+			} else if sw != nil && idx == sw {
+				suffix = append(suffix, ctElem{Field: -1, Index: s})
+			} else {
+				return nil, false
+			}
+			addr = x.X
+		case *ssa.Global:
+			path := make([]ctElem, 0, len(suffix))
+			for j := len(suffix) - 1; j >= 0; j-- {
+				path = append(path, suffix[j])
+			}
+			return p.ConstTableOf(x).Lookup(path)
+		case *ssa.Alloc:
+			st := c07LocalCopyOf(x)
+			if st == nil || !ip.OnPath(st) {
+				return nil, false
+			}
+			// the copy is made before it is read: the store's block strictly dominates the reader's, or precedes it in the same block
+			sb, ub := st.Block(), user.Block()
+			if sb == ub {
+				if instrIndex(st) > instrIndex(user) {
+					return nil, false
+				}
+			} else if !sb.Dominates(ub) {
+				return nil, false
+			}
+			src, isLoad := ip.ResolveAt(st.Val).(*ssa.UnOp)
+			if !isLoad || src.Op != token.MUL {
+				return nil, false
+			}
+			addr = src.X
+			user = src
+		default:
+			return nil, false
+		}
+	}
+	return nil, false
+}
+
+// c07StatesOnPath: the states 0..3 of the excess/disjoint switch that the outcomes of the path leave possible. Tests
+// of the state against constants are read as in c07StateOnPath; a test of a value read from a constant table at the
+// state (`if steps[side][state].excess`) leaves the states for which the table holds the value the outcome requires.
+// Outcomes that say nothing decidable about the state leave every state possible (the caller then judges the path
+// for each of them).
+func c07StatesOnPath(p *Prog, ip *IterPath, sw ssa.Value) []int64 {
+	possible := map[int64]bool{0: true, 1: true, 2: true, 3: true}
+	relOf := func(a, b int64) int {
+		switch {
+		case a < b:
+			return c07RelLT
+		case a > b:
+			return c07RelGT
+		}
+		return c07RelEQ
+	}
+	for _, g := range ip.Conds {
+		if o, set, ok := c07FactAbout(g.Cond, g.True, func(v ssa.Value) bool { return v == sw }); ok {
+			if k, isK := c07Int(o); isK {
+				for s := range possible {
+					if set&relOf(s, k) == 0 {
+						delete(possible, s)
+					}
+				}
+			}
+			continue
+		}
+		// a boolean read from the table
+		cond, outcome := g.Cond, g.True
+		for {
+			if u, isU := cond.(*ssa.UnOp); isU && u.Op == token.NOT {
+				cond, outcome = u.X, !outcome
+				continue
+			}
+			break
+		}
+		if bt, isB := cond.Type().Underlying().(*types.Basic); isB && bt.Info()&types.IsBoolean != 0 {
+			if _, isCmp := cond.(*ssa.BinOp); !isCmp {
+				for s := range possible {
+					if val, ok := c07TableEval(p, ip, cond, sw, s); ok && val.Kind() == constant.Bool && constant.BoolVal(val) != outcome {
+						delete(possible, s)
+					}
+				}
+				continue
+			}
+		}
+		// an integer read from the table compared with a constant
+		if x, y, set, ok := c07Fact(g.Cond, g.True); ok {
+			if k, isK := c07Int(y); isK {
+				for s := range possible {
+					if val, okV := c07TableEval(p, ip, x, sw, s); okV && val.Kind() == constant.Int {
+						if n, exact := constant.Int64Val(val); exact && set&relOf(n, k) == 0 {
+							delete(possible, s)
+						}
+					}
+				}
+			}
+		}
+	}
+	var out []int64
+	for s := int64(0); s <= 3; s++ {
+		if possible[s] {
+			out = append(out, s)
+		}
+	}
+	return out
+}
